@@ -870,7 +870,7 @@ def _cmp_sections(R, frames, secs, S, tail, sg):
                    sig=sg("rows"), exp=want, obs=df.values.tolist())
             continue
         got = np.array([[_num(x) for x in row] for row in df.values.tolist()], float)
-        if not np.isclose(got, want, rtol=1e-9, atol=1e-15).all():
+        if not np.isclose(got, want, rtol=1e-9, atol=1e-15, equal_nan=True).all():
             R.fail(f"section {k} of {S} (tail: {tail}): values differ", sig=sg("values"), exp=want, obs=df.values.tolist())
         n += want.size
     return n
@@ -1236,6 +1236,23 @@ def gen_log_tail(tier, seed):
             for Lw in range(0, depth + 1):
                 for word in itertools.product(range(len(Y.LOG_EVENTS)), repeat=Lw):
                     yield {"layout": layout, "pre": pre, "word": list(word), "seed": seed}
+                    if Lw >= 1 and pre == "short":
+                        # undefined thermo values: LAMMPS prints "nan" / "-nan" (0/0 computes, pressure of an empty group); such a row is still a row
+                        yield {"layout": layout, "pre": pre, "word": list(word), "seed": seed, "nan": True}
+
+
+def _with_nan(t, rows):
+    """first data row: last column -> nan; last data row: second column -> -nan (text and expected values)"""
+    lines = t.split("\n")
+    rows = [list(r) for r in rows]
+    if not rows:
+        return t, rows
+    for (r, c, tok) in ((0, len(rows[0]) - 1, "nan"), (len(rows) - 1, 1, "-nan")):
+        toks = lines[1 + r].split()
+        toks[c] = tok
+        lines[1 + r] = " ".join(toks)
+        rows[r][c] = float("nan")
+    return "\n".join(lines), rows
 
 
 def run_log_tail(case):
@@ -1248,6 +1265,8 @@ def run_log_tail(case):
     for k, a in enumerate(case["word"]):
         nz, r, c = Y.LOG_EVENTS[a]
         t, names, rows = c19x.log_section(seed, k, r, c, layout)
+        if case.get("nan"):
+            t, rows = _with_nan(t, rows)
         base += io19.NOISE[nz] + t
         secs.append((names, rows))
     S = len(secs)
